@@ -1222,4 +1222,16 @@ example : (run (primsCountTotalC2c T0 {}) (relEnv ⟨.start, .count, .c2c⟩ 1 3
     (run (primsCountTotalC2c T0 { count := some 4 }) (relEnv ⟨.count, .total, .c2c⟩ 1 8 2) body_count_total_c2c).toOption
       = some 4 := by decide +kernel
 
+/-- `Chop.invert`, statement by statement as the source has it now (tuple swap of the sizes, `1 / c2c_expansion` and
+    `1 / total_expansion` under their `is not None` tests, the `preserve` field moved to the other end — in this order):
+    run on any parameter record it yields the model's `invert` and `swapPreserve`, and when a reciprocal raises
+    (`1 / 0`) it leaves exactly the half-inverted record `invertLeft` that the histories continue with. -/
+theorem T_C03_translated_invert :
+    encIBody invertBody = CBV.Gen.c03InvertBody ∧
+    ∀ (v : Vals) (p : Q), runI invertBody (v, p) =
+      match invert v with
+      | .ok w => ((w, swapPreserve p), none)
+      | .error e => ((invertLeft v, p), some e) :=
+  ⟨invertBody_source, runI_invert⟩
+
 end CBV.C03
